@@ -13,7 +13,7 @@ ANCHORS = ["ScenarioID.__str__", "ScenarioID.from_benchmark_id", "CommonRoadSolu
 REQUIRED = ["kind.map", "kind.config", "kind.behaviour", "kind.behaviour+id", "kind.behaviour+ids",
             "kind.behaviour-noconfig", "cooperative", "country.ZAM", "solution.single", "solution.cooperative",
             "all-model-type-cost-tuples", "assigned-after-print.map_id", "assigned-after-print.prediction_id",
-            "assigned-after-print.configuration_id", "original-inspected-before-comparison", "read-again-after-the-first-result-was-edited"]
+            "assigned-after-print.configuration_id", "original-inspected-before-comparison", "read-again-after-the-first-result-was-edited", "solution.given-as-input-vector.PM", "solution.given-as-input-vector.other"]
 ASSUMPTIONS = ["single-element prediction-id lists are not generated (canonical single form is the int)",
                "map names consist of letters and digits (the constructor strips everything else)"]
 SHARDS = {"quick": 2, "thorough": 16}
@@ -174,8 +174,13 @@ def run(ctx):
         sid = ScenarioID(scenario_version=version, **f)
         pps = []
         ids = rng.sample(range(1, 999), len(kinds_mtc))
-        for (m, t, c), pid in zip(kinds_mtc, ids):
-            traj, _ = G.gen_trajectory(rng, m.name, n=2, hostile=False)
+        for k_, ((m, t, c), pid) in enumerate(zip(kinds_mtc, ids)):
+            kind_ = m.name
+            if (i + k_) % 3 == 1 and m is not VehicleModel.KST:
+                # the solution is given as an input vector: the benchmark id is the same, the document carries another element
+                kind_ = "PMInput" if m is VehicleModel.PM else "Input"
+                ctx.feature("solution.given-as-input-vector." + ("PM" if m is VehicleModel.PM else "other"))
+            traj, _ = G.gen_trajectory(rng, kind_, n=2, hostile=False)
             pps.append(PlanningProblemSolution(pid, m, t, c, traj))
         sol = Solution(sid, pps)
         ctx.feature("solution.single" if len(pps) == 1 else "solution.cooperative")
